@@ -70,28 +70,40 @@ SelFold(cs, idx, n, req) ==
   IF cs = <<>> THEN [idx |-> idx, req |-> req]
   ELSE LET s == SelReq(Head(cs), idx, n) IN SelFold(Tail(cs), s.idx, n, req \/ s.req)
 
-\* ----- do_live_reload, src: mod.rs:598-699 ---------------------------------------------------
+\* ----- do_live_reload, src: mod.rs:598-717 ---------------------------------------------------
+\* Order in the code: parse (599-605) ; fallible steps update_kbd_out / set_repeat_rate (606-610, since 20ca339
+\* before the first assignment) ; assignments from the parse result ; reset of the run-time state that refers
+\* to the old layout (since 145f589) ; notifications ; prev_layer ; macro_on_press_cancel_duration := 0.
 \* Assigned from the parse result (=> the model switches `cfg`, i.e. Act/LayerTab/SrcTab/Opts, and takes a new layout):
 \*   sequence_backtrack_modcancel, sequence_always_on, sequence_input_mode, sequence_timeout, layout, key_outputs,
 \*   layer_info, sequences, overrides, log_layer_changes, movemouse_smooth_diagonals, override_release_on_activation,
 \*   movemouse_inherit_accel_state, dynamic_macro_max_presses, dynamic_macro_replay_behaviour, switch_max_key_timing,
-\*   virtual_keys, zippychord configuration, MAPPED_KEYS; then (after the fallible post-parse step) prev_layer and
-\*   macro_on_press_cancel_duration := 0.
-\* NOT touched (retained from the running instance; K fields in brackets): prev_keys [prev], cur_keys, cur_cfg_idx [idx],
-\*   waiting_for_idle [wfi], vkeys_pending_release [vpr], ticks_since_idle [tsi], scroll_state / hscroll_state
-\*   [scroll, hscroll], move_mouse_state_*, move_mouse_speed_modifiers, movemouse_buffer, sequence_state [sq], caps_word,
-\*   dynamic_macros, dynamic_macro_record_state, dynamic_macro_replay_state [dyn], unmodded_keys [um], unmodded_mods
-\*   [umm], unshifted_keys [us], last_pressed_key [lpk], override_states (scratch), saved_clipboard_content, kbd_out.
+\*   virtual_keys, zippychord configuration, MAPPED_KEYS.
+\* Reset (K fields in brackets): scroll_state / hscroll_state [scroll, hscroll], move_mouse_state_*,
+\*   move_mouse_speed_modifiers, movemouse_buffer, unmodded_keys [um], unmodded_mods [umm], unshifted_keys [us],
+\*   last_pressed_key [lpk], caps_word, sequence_state [sq], waiting_for_idle [wfi], vkeys_pending_release [vpr],
+\*   dynamic_macro_replay_state [dyn.rep], dynamic_macro_record_state [dyn.rec], macro_on_press_cancel_duration [mcd].
+\* NOT touched (retained from the running instance): prev_keys [prev] (so that what is down is released by the next
+\*   tick), cur_keys, cur_cfg_idx [idx], ticks_since_idle [tsi], dynamic_macros [dyn.mac], override_states (scratch),
+\*   saved_clipboard_content, kbd_out.
+\* BugR (model mutants = the behaviour before the repairs): "post_step_after_assign" (before 20ca339 a failing
+\*   set_repeat_rate left the new configuration in force without notifications), "runtime_state_kept" (before 145f589).
 \* kind = content of cfg_paths[idx] now.  Returns [S, msgs, repl].
+ResetRuntime(K) ==
+  IF BugR = "runtime_state_kept" THEN K
+  ELSE [K EXCEPT !.scroll = <<>>, !.hscroll = <<>>, !.um = <<>>, !.umm = 0, !.us = <<>>, !.lpk = 0,
+                 !.sq = Old!InitSq, !.wfi = {}, !.vpr = <<>>, !.dyn.rep = <<>>, !.dyn.rec = <<>>]
 DoLiveReload(S, kind) ==
   LET c == CfgOfKind[kind] IN
   IF c = "" THEN [S |-> S, msgs |-> <<>>, repl |-> FALSE]                \* 599-605: bail before any assignment
-  ELSE LET K1 == [S.K EXCEPT !.L = InitLayoutOf(c)] IN                  \* 609-654
+  ELSE IF kind \in PostFail /\ BugR # "post_step_after_assign"
+  THEN [S |-> S, msgs |-> <<>>, repl |-> FALSE]                          \* 606-610: `?` before any assignment
+  ELSE LET K1 == ResetRuntime([S.K EXCEPT !.L = InitLayoutOf(c)]) IN
        IF kind \in PostFail
-       THEN [S |-> [S EXCEPT !.K = K1, !.cfg = c], msgs |-> <<>>, repl |-> TRUE]   \* 655-656: `?` after the assignments
+       THEN [S |-> [S EXCEPT !.K = K1, !.cfg = c], msgs |-> <<>>, repl |-> TRUE]
        ELSE LET cl == 0 IN     \* current_layer() of a new layout = its default layer 0
-            [S |-> [S EXCEPT !.K = [K1 EXCEPT !.mcd = 0], !.cfg = c, !.pl = cl],       \* 676-679
-             msgs |-> <<<<"reload", ToString(S.idx)>>, <<"layer", LayerNameOf(c, cl)>>>>,   \* 658-674, 686-695
+            [S |-> [S EXCEPT !.K = [K1 EXCEPT !.mcd = 0], !.cfg = c, !.pl = cl],
+             msgs |-> <<<<"reload", ToString(S.idx)>>, <<"layer", LayerNameOf(c, cl)>>>>,
              repl |-> TRUE]
 
 \* ----- one iteration of the loop with 1 ms elapsed ------------------------------------------------
